@@ -159,3 +159,24 @@ def _parse_one(g: List[Tuple[str, str]]) -> Operand:
             return Operand("emem_reg", text, reg=istr, rmode="off", disp=v if vals[1][0] == "+" else -v)
         raise ParseError(f"unrecognised emem operand {text}")
     raise ParseError(f"unrecognised operand {text} {g}")
+
+
+# ---- "Internal RAM Addressing Prefix Byte Table" of sc62015/pysc62015/README.md -----------------------------------------
+# rows = mode of the first internal-memory operand, columns = mode of the second one
+_ROWS = ("N", "BP_N", "PX_N", "BP_PX")
+_COLS = ("N", "BP_N", "PY_N", "BP_PY")
+_GRID = ((0x32, 0x30, 0x33, 0x31), (0x22, None, 0x23, 0x21), (0x36, 0x34, 0x37, 0x35), (0x26, 0x24, 0x27, 0x25))
+PRE_TABLE: Dict[int, Tuple[str, str]] = {b: (_ROWS[r], _COLS[c]) for r in range(4) for c in range(4) for b in (_GRID[r][c],) if b is not None}
+
+
+def pre_table_diffs(pre: Optional[int], ops: List[Operand]) -> List[Tuple[str, str]]:
+    """For an instruction written `(m),(n)` (two plain internal-memory operands) the README table fixes the mode of the
+    first operand (row) and of the second (column) for every prefix byte; other operand shapes are not settled by the table."""
+    if pre is None or pre not in PRE_TABLE or len(ops) != 2 or any(o.kind != "imem" or o.imem is None for o in ops):
+        return []
+    out = []
+    for slot, (o, want) in enumerate(zip(ops, PRE_TABLE[pre])):
+        if o.imem.mode != want:
+            out.append((f"pre-table/{'first' if slot == 0 else 'second'}-operand-mode",
+                        f"prefix {pre:02X}h: operand {slot + 1} is rendered '{o.text}' (mode {o.imem.mode}); the prefix byte table gives {want}"))
+    return out
